@@ -274,6 +274,8 @@ func NewCtl(rec *Recorder, spec FanSpec, pwm0, mode0 int, avg0 float64) *Ctl {
 		spec.N = 10
 	}
 	configuration.CurrentConfig.RpmRollingWindowSize = spec.N
+	// the two window options are independent: the temperature window is always different from the RPM window
+	configuration.CurrentConfig.TempRollingWindowSize = 3*spec.N + 7
 	curve := &SchedCurve{ID: uniq("vcurve")}
 	curves.RegisterSpeedCurve(curve)
 	id := uniq("vfan")
